@@ -26,7 +26,8 @@ def report(drv, fid, src, opts, cached):
     return r
 
 
-def judge(case, drv, reports=None):
+def judge(case, drv, reports=None, configs=None):
+    configs = configs or CONFIGS[1:]
     font = cases.font_bytes(case)
     fid = drv.put_font(font)
     cached = 0x80 if case['kind'] == 'shipped' else 0
@@ -46,7 +47,7 @@ def judge(case, drv, reports=None):
                     diff = [k for k in a if a.get(k) != b.get(k)]
                     raise Violation('face-report-depends-on-options', dict(case, config=[src, opts]), 'keys differing: %s' % diff)
             reports[key] = True
-        for src, opts in CONFIGS[1:]:
+        for src, opts in configs:
             r = cases.shape(drv, fid, case, src=cached | src, opts=opts)
             if r.get('face') != ref.get('face') or r.get('seg') != ref.get('seg'):
                 raise Violation('segment-presence-depends-on-options', dict(case, config=[src, opts]), '')
@@ -98,6 +99,27 @@ def worker(ctx):
                      sample=dict(font=case.get('font', 'synthesised'), text=case['text'], dir=case['dir'], enc=case['enc'], configs=16, rules_fired=r.get('fired')) if nt else None,
                      shipped=case['kind'] == 'shipped', synthesised=case['kind'] == 'spec', rule_fired=nt, seg_null=not r.get('seg'))
         return t
+
+    # corpus sweep: every line (quick: a stride sample of <= 600 per font) of the text files the repository pairs with each shipped font,
+    # in the script's own direction, lazy/callback face against preloading, file and cmap-caching faces.  Seed S8-C10 (a null guard in
+    # GlyphCache::check) changed 5 of the 531 Awami lines and no random text: only real words fire the rule that sets an exclusion glyph.
+    import corpustext
+    SWEEP = [(0, 6), (1, 0), (1, 2), (0, 4)]
+    for f in names:
+        ls = corpustext.sample(f, 600 if not ctx.thorough() else 4000)
+        for i, (where, txt) in enumerate(ls):
+            if i % ctx.nworkers != ctx.k:
+                continue
+            case = dict(kind='shipped', font=f, text=txt, dir=corpustext.natural_dir(f), enc=4, feats=[], line=where)
+            try:
+                r = judge(case, drv, None, configs=SWEEP)
+            except Violation as v:
+                ctx.report(v, replay_case)
+                continue
+            except Inconclusive:
+                continue
+            rec.evaluations += len(SWEEP)
+            rec.case(nontrivial_sig=json.dumps(case, sort_keys=True) if r.get('fired') else None, sample=None, corpus_line=True)
 
     # fonts with generated cmaps (format 4 + format 12, boundary code points): the cmap-caching option must not change lookups
     import props.c13 as c13
